@@ -73,13 +73,21 @@ def parse_clause(text):
 
 
 class LoopSpec:
-    def __init__(self, ordinal, invariant=(), modifies=(), types=None, env=None, top=()):
+    def __init__(self, ordinal, invariant=(), modifies=(), types=None, env=None, top=(), head=None, body_ensures=()):
         self.ordinal = ordinal
         self.invariant = list(invariant)
         self.modifies = list(modifies)
         self.types = types or {}
         self.env = env or {}
         self.top = set(top)
+        self.head = head                        # callback(ctx, frame) at the head of the arbitrary iteration
+        self.body_ensures = list(body_ensures)  # clauses checked at the END of the arbitrary iteration only (may use ghosts set by head)
+
+    def check_body(self, interp, fr, name):
+        sf = self._frame(interp, fr)
+        for i, cl in enumerate(self.body_ensures):
+            v = eval_clause(interp, cl, sf)
+            interp.ctx.prove("%s#%d" % (name, i), v, kind="loop-body", detail=cl, top=True)
 
     def _frame(self, interp, fr):
         prog = interp.ctx.prog
@@ -89,14 +97,17 @@ class LoopSpec:
 
     def check(self, interp, fr, name, kind):
         sf = self._frame(interp, fr)
+        interp.ctx.spec_mode = "check"
         for i, cl in enumerate(self.invariant):
             v = eval_clause(interp, cl, sf)
             interp.ctx.prove("%s#%d" % (name, i), v, kind=kind, detail=cl, top=(i in self.top))
 
     def assume(self, interp, fr):
         sf = self._frame(interp, fr)
+        interp.ctx.spec_mode = "assume"      # spec functions with existential ghosts introduce fresh witnesses here
         for cl in self.invariant:
             interp.ctx.assume(as_term(eval_clause(interp, cl, sf)))
+        interp.ctx.spec_mode = "check"
 
     def havoc(self, interp, fr, st):
         ctx = interp.ctx
@@ -566,9 +577,9 @@ class Builder:
         self.env.update(kw)
 
     # ---- loop specs for the function under contract or functions it inlines
-    def loop(self, qual, ordinal, invariant=(), modifies=(), types=None, top=()):
+    def loop(self, qual, ordinal, invariant=(), modifies=(), types=None, top=(), head=None, body_ensures=()):
         fs = self.prog.func_specs.setdefault(qual, FuncSpec(qual))
-        fs.loops[ordinal] = LoopSpec(ordinal, invariant, modifies, types, env=self.env, top=top)
+        fs.loops[ordinal] = LoopSpec(ordinal, invariant, modifies, types, env=self.env, top=top, head=head, body_ensures=body_ensures)
 
     # ---- running the real code
     def funcval(self, qual, bound=None):
